@@ -5102,7 +5102,7 @@ impl<K: Introspect + Eq + Hash, V: Introspect, S: ::std::hash::BuildHasher> Intr
         }
     }
     fn introspect_len(&self) -> usize {
-        self.len()
+        self.len() * 2 // keys and values are separate children
     }
 }
 
@@ -5126,7 +5126,7 @@ impl<K: Introspect + Eq + Hash, V: Introspect, S: ::std::hash::BuildHasher> Intr
         }
     }
     default fn introspect_len(&self) -> usize {
-        self.len()
+        self.len() * 2 // keys and values are separate children
     }
 }
 
@@ -5210,7 +5210,7 @@ impl<K: Introspect, V: Introspect> Introspect for BTreeMap<K, V> {
         }
     }
     fn introspect_len(&self) -> usize {
-        self.len()
+        self.len() * 2 // keys and values are separate children
     }
 }
 
@@ -5421,7 +5421,7 @@ impl<K: Introspect + Eq + Hash, V: Introspect, S: ::std::hash::BuildHasher> Intr
     }
 
     fn introspect_len(&self) -> usize {
-        self.len()
+        self.len() * 2 // keys and values are separate children
     }
 }
 
@@ -5450,7 +5450,7 @@ impl<K: Introspect + Eq + Hash, V: Introspect, S: ::std::hash::BuildHasher> Intr
     }
 
     default fn introspect_len(&self) -> usize {
-        self.len()
+        self.len() * 2 // keys and values are separate children
     }
 }
 
